@@ -6,7 +6,8 @@
                                invariants: the reference RefCheck (C02_Ref) is sound and counts gaps exactly; every complete
                                object is emitted as a vector
  I  spec/C02_CheckerImpl.tla   _check_proof_item / check_proof / checked_extend AS CODED (C02_ImplDefs: can_depend_on on
-                               identifiers, find_item on positions with Python indexing, in-place th, compute_only) on the
+                               identifiers, find_item on positions with Python indexing, in-place th on item OBJECTS, args put in front of
+                               the cited sequents, compute_only) on the
                                same state space; invariants Impl accepts => RefCheck accepts, gaps exact, extension proved.
                                The variant of the algorithm (constants Fx*) is derived from the code under test.
  ->  harness/drivers/c02.py    builds real Proof/ProofItem objects from the vectors, runs theory.check_proof (no_gaps
@@ -25,9 +26,10 @@ from harness.core import (SPEC, MachineryError, model_check, read_events, requir
 
 PID = "C02"
 TSPEC = "C02_CheckerTrace"
-FX_CONST = [("idpos", "FxIdPos"), ("negidx", "FxNegIdx"), ("empty", "FxEmpty"), ("extng", "FxExtNg"), ("extcmp", "FxExtCmp")]
+FX_CONST = [("idpos", "FxIdPos"), ("negidx", "FxNegIdx"), ("empty", "FxEmpty"), ("extng", "FxExtNg"), ("extcmp", "FxExtCmp"),
+            ("argsig", "FxArgSig"), ("posocc", "FxPosOcc")]
 I_INVS = ["ImplRefines", "ExtRefines", "ImplNoGaps", "ImplGapsExact", "ComputeOnlyPlain"]
-SLICES = {"quick": ["f2", "k1", "s3", "b1"], "thorough": ["f3b", "f3", "f2x", "k2", "k0", "s4"]}
+SLICES = {"quick": ["f2", "k1", "s3", "al", "a1", "b1"], "thorough": ["f3b", "f3", "f2x", "k2", "al2", "k0", "a2", "s4"]}
 NRANDOM = {"quick": 1500, "thorough": 40000}
 REPS_PER_GROUP = 1
 
@@ -66,9 +68,13 @@ def shape(e):
                 sig.add("emptystated")
             if it["rule"] in ("sorry", "verif_gap1"):
                 sig.add("gap")
+            if it.get("alias"):
+                sig.add("alias")
+            if it.get("ak", "none") in ("thm", "type", "tuple") or (it.get("ak") == "inst" and it["rule"] != "substitution"):
+                sig.add("argkind")
             walk(it["sub"], pos)
     walk(e.get("prf", []), [])
-    for lab in ("emptystated", "negcite", "id#pos", "gap"):
+    for lab in ("argkind", "alias", "emptystated", "negcite", "id#pos", "gap"):
         if lab in sig:
             return lab
     return "plain"
@@ -135,7 +141,8 @@ def run(rep, tier):
     slices = SLICES["quick" if quick else "thorough"]
     rep.rule = ("TLC builds every proof object of the slices %s of spec/C02_Checker.tla (flat <= 2-3 items; one block of <= 1-2 "
                 "items; sibling and nested blocks (depth 2, <= 3-4 rule items) with citations into closed blocks; anomaly budget per object: identifier != position, citation that is not an earlier visible position, "
-                "stated sequent weaker/stronger/other, missing theorem, stated empty line) and checks RefCheck's soundness and gap "
+                "stated sequent weaker/stronger/other, missing theorem, stated empty line, argument object of a kind the rule's signature "
+                "does not take, number of citations off by one; one item object placed at a second position) and checks RefCheck's soundness and gap "
                 "counting on each; the algorithm as coded (variant derived from the code) is checked against RefCheck on the same "
                 "space; every object plus %d seeded larger damaged derivations (<= 12 items, nesting <= 3) is run through "
                 "theory.check_proof (no_gaps True/False, compute_only) and Theory.checked_extend (2-3 stated theorems each). "
@@ -146,7 +153,11 @@ def run(rep, tier):
                        "implies_intr, implies_elim, substitution with the empty instantiation, theorem, sorry, subproof, empty line, "
                        "a trusted level-0 macro and a level-1 macro whose expansion is a placeholder (check_level 0)",
                        "objects with more than 48 visible verified sequents at one step are not examined",
-                       "the rule `variable`, check_level > 0 and proofs sharing ProofItem objects are not examined"]
+                       "primitive rules whose results leave this language (combination, beta_conv, abstraction, forall_intr, forall_elim) "
+                       "are only examined with arguments / numbers of citations that do NOT fit them",
+                       "the rule `variable`, check_level > 0 and shared BLOCK objects are not examined",
+                       "all checks run through Theory objects that are not the global kernel.theory.thy (one built on the side, one "
+                       "copy() snapshot); the global theory differs on the cited names T1 and TX"]
 
     # ---- which algorithm does the code implement?  (innocuous probes; constants of the I spec and field fx of the events)
     fxp = wd / "features.json"
